@@ -411,10 +411,11 @@ var clauseKeywords = map[string]bool{
 	"noverify": true, "opt": true, "axiom": true, "uses": true,
 }
 var blockKeywords = map[string]bool{
-	"func": true, "closure": true, "ghost": true, "lemma": true, "trusted": true,
+	"func": true, "closure": true, "ghost": true, "lemma": true, "trusted": true, "funcfield": true,
 }
 
 type ContractFile struct {
+	GhostVars []QVar
 	PkgPath string
 	Path    string
 	Funcs   []*FuncContract
@@ -468,7 +469,7 @@ func parseContractLines(pkgPath, path string, lines []string) (*ContractFile, er
 			return &Clause{Kind: kind, E: e, Src: strings.Join(strings.Fields(src), " "), Name: fmt.Sprintf("%s:%d", kind, counters[kind])}, nil
 		}
 		switch w {
-		case "trusted", "func", "closure":
+		case "trusted", "func", "closure", "funcfield":
 			curGhost, curLemma = nil, nil
 			counters = map[string]int{}
 			cur = &FuncContract{PkgPath: pkgPath, Loops: map[int]*LoopSpec{}, Safety: map[string]bool{}, Opts: map[string]string{}, SrcFile: path}
@@ -478,14 +479,46 @@ func parseContractLines(pkgPath, path string, lines []string) (*ContractFile, er
 				cur.Header = "func " + rest
 			} else if w == "func" {
 				cur.Header = "func " + rest
+			} else if w == "funcfield" {
+				// funcfield Type.Field(params) (results)
+				dot := strings.Index(rest, ".")
+				lp := strings.Index(rest, "(")
+				if dot < 0 || lp < dot {
+					return nil, fmt.Errorf("%s: bad funcfield header %q", path, rest)
+				}
+				cur.FieldOf = strings.TrimSpace(rest[:dot])
+				cur.FieldName = strings.TrimSpace(rest[dot+1 : lp])
+				cur.Header = "func " + cur.FieldName + rest[lp:]
 			} else {
 				cur.Closure = rest
 			}
 			cf.Funcs = append(cf.Funcs, cur)
 		case "ghost":
-			// ghost pure func name(params) T [= expr]   |  ghost rec func ...
+			// ghost pure func name(params) T [= expr]   |  ghost rec func ...   |  ghost var name T
 			cur, curLemma = nil, nil
 			counters = map[string]int{}
+			if f := strings.Fields(rest); len(f) >= 3 && f[0] == "var" {
+				toks, err := lexSpec(strings.Join(f[2:], " "))
+				if err != nil {
+					return nil, err
+				}
+				p := &sparser{toks: toks}
+				var te *TypeExpr
+				func() {
+					defer func() {
+						if r := recover(); r != nil {
+							err = fmt.Errorf("%v", r)
+						}
+					}()
+					te = p.typ()
+				}()
+				if err != nil {
+					return nil, fmt.Errorf("%s: bad ghost var: %v", path, err)
+				}
+				cf.GhostVars = append(cf.GhostVars, QVar{f[1], te})
+				curGhost = nil
+				continue
+			}
 			g, err := parseGhostFunc(rest)
 			if err != nil {
 				return nil, fmt.Errorf("%s: %v", path, err)
